@@ -400,9 +400,13 @@ class Spectrum:
 
         """
         if waveunit != self.waveunit:
-            self.to(waveunit)
+            # convert a copy: sampling must not change the units of self
+            spectrum = self.copy()
+            spectrum.to(waveunit)
+        else:
+            spectrum = self
 
-        interp = scipy.interpolate.interp1d(self.wave, self.value, kind=method,
+        interp = scipy.interpolate.interp1d(spectrum.wave, spectrum.value, kind=method,
                                             copy=False, bounds_error=False,
                                             fill_value=fill_value)
 
